@@ -138,6 +138,12 @@ def shrink(sc, run, want, max_runs=600, prop=None):
                 cand = copy.deepcopy(best)
                 cb = all_bodies(cand)[bi]
                 st = cb[j]
+                if st[0] in ('await', 'signal'):
+                    # synchronisation is part of the scenario's validity
+                    # (operations of different threads must stay independent
+                    # unless ordered): never removed
+                    j += 1
+                    continue
                 del cb[j]
                 if ok(cand):
                     best = cand
